@@ -486,6 +486,11 @@ def sf_fresh_object(ex, x):
     return mk_bool(z3.And(x.term != NONE, z3.Not(ex.is_alloc(x.term, ex.entry['now'])), ex.is_alloc(x.term)))
 
 
+def sf_wf_dict(ex, d):
+    return mk_bool(ex.dict_wf(d))
+
+
 def install_specfuns(spec: Spec):
+    spec.specfuns['wf_dict'] = sf_wf_dict
     spec.specfuns['fresh_object'] = sf_fresh_object
     spec.specfuns.update({'implies': sf_implies, 'iff': sf_iff, 'fmt2': sf_fmt('{}.{}'), 'ctx': sf_ctx, 'exc_is': sf_exc_is})
